@@ -10,7 +10,7 @@
    over the definitions of Model/Discrete.v that are extracted and run against /repo
    (Model/DiscreteO.v is a proof device: C12_otree_is_model ties it to Model/Discrete.v).
    law / prob: the finite-distribution semantics of Base/Samp.v. *)
-From EoNV Require Import Prelude Samp Graph Discrete DiscreteP DiscreteO DiscreteOP DiscreteSISO DeferredP DeferredKP DiscreteLawP DiscreteLawUP FinalSizeP PercLawP SISLawP SampP LosslessP DiscreteLawFullP.
+From EoNV Require Import Prelude Samp Graph Discrete DiscreteP DiscreteO DiscreteOP DiscreteSISO DeferredP DeferredKP DiscreteLawP DiscreteLawUP FinalSizeP PercLawP SISLawP SampP LosslessP DiscreteLawFullP DiscreteG ChainP.
 From Coq Require Import Permutation.
 
 (* ---- the law of the whole run, return_full_data = False ----
@@ -252,6 +252,82 @@ Theorem C12_run_proj : forall g tb R pick ord tmin tmax full i0 r0,
 Proof. exact run_proj. Qed.
 Print Assumptions C12_run_proj.
 
+(* ---- the CHAIN form: step-to-step transition probabilities = Reed-Frost / discrete SIS chain ----
+   The plain output (rows) only has the counts; the generation sets A_1, A_2, ... (the set
+   `infecteds` after each pass of the while loop) are exposed by the instrumented loop of
+   Model/DiscreteG.v: basic_discrete_SIR_G returns (output, [A_1; ...; A_K]) and forgetting the
+   second component gives back basic_discrete_SIR (C12_G_is_model: same program, same draws).
+   For EVERY target sequence As = [A_1; ..; A_K] (sets compared on the nodes of the graph):
+     P(the generation sets are exactly A_1 .. A_K and the loop then stops)
+       = chain_prob = prod_{k<K} RF(S_k, I_k -> A_{k+1}) * [loop condition `infecteds and t < tmax`
+         holds at steps 0..K-1 and fails at step K]        (0 when the model's fuel < K)
+   with S_0 = nodes outside i0 and r0, I_0 = i0, S_{k+1} = S_k minus A_{k+1}, I_{k+1} = A_{k+1}, and
+     RF(S, I -> A) = prod over nodes v:  v in S, v in A:      1 - (1-q)^(m_v)
+                                         v in S, v not in A:  (1-q)^(m_v)
+                                         v not in S:          [v not in A]
+     m_v = number of contacts (u, v), u in I (C12_contact_count), q = clamp01 p:
+   the law of the sequence (S_k, I_k) is that of the Reed-Frost Markov chain stopped by the loop
+   condition.  return_full_data = False; any iteration-order oracle; any i0, r0, tmin, tmax, fuel. *)
+Theorem C12_chain_law : forall g p ord tmin tmax,
+  NoDup (gnodes g) -> (forall u v, In u (gnodes g) -> In v (gadj g u) -> In v (gnodes g)) ->
+  (forall k l, Permutation (ord k l) l) ->
+  forall i0 r0o fuel As,
+  prob (fun x => gens_are g As (snd x)) (law (basic_discrete_SIR_G g p ord i0 r0o tmin tmax false fuel)) ==
+  chain_prob g p tmax fuel tmin (fun v => negb (mem v i0) && negb (mem v (opt_list r0o))) (canon g i0) As.
+Proof. exact dsir_chain_law. Qed.
+Print Assumptions C12_chain_law.
+
+Theorem C12_chain_prob_unfold : forall g p tmax fuel t sus infs A As,
+  chain_prob g p tmax (S fuel) t sus infs (A :: As) =
+    (if nonempty infs && xlt t tmax
+     then RF g p sus infs A * chain_prob g p tmax fuel (t + 1) (fun v => sus v && negb (mem v A)) (canon g A) As
+     else 0) /\
+  chain_prob g p tmax fuel t sus infs [] = (if nonempty infs && xlt t tmax then 0 else 1) /\
+  RF g p sus infs A =
+    prodQ (map (fun v => if sus v
+                         then (if mem v A then 1 - qpow (1 - clamp01 p) (mcount (contacts g infs) v)
+                               else qpow (1 - clamp01 p) (mcount (contacts g infs) v))
+                         else (if mem v A then 0 else 1)) (gnodes g)).
+Proof.
+  intros. split; [reflexivity|]. split; [|reflexivity].
+  destruct fuel; cbn [chain_prob]; destruct (nonempty infs && xlt t tmax); reflexivity.
+Qed.
+Print Assumptions C12_chain_prob_unfold.
+
+(* the same for basic_discrete_SIS with the discrete SIS factor: the nodes of I are not in the next
+   generation, every other node v is with probability 1 - (1-q)^(m_v), independently *)
+Theorem C12_sis_chain_law : forall g p ord tmin tmax,
+  NoDup (gnodes g) -> (forall u v, In u (gnodes g) -> In v (gadj g u) -> In v (gnodes g)) ->
+  (forall k l, Permutation (ord k l) l) ->
+  forall i0 fuel As,
+  prob (fun x => gens_are g As (snd x)) (law (basic_discrete_SIS_G g p ord i0 tmin tmax false fuel)) ==
+  sis_chain_prob g p tmax fuel tmin (canon g i0) As.
+Proof. exact dsis_chain_law. Qed.
+Print Assumptions C12_sis_chain_law.
+
+Theorem C12_sis_chain_prob_unfold : forall g p tmax fuel t infs A As,
+  sis_chain_prob g p tmax (S fuel) t infs (A :: As) =
+    (if nonempty infs && xlt t tmax then RFS g p infs A * sis_chain_prob g p tmax fuel (t + 1) (canon g A) As else 0) /\
+  sis_chain_prob g p tmax fuel t infs [] = (if nonempty infs && xlt t tmax then 0 else 1) /\
+  RFS g p infs A =
+    prodQ (map (fun v => if mem v infs then (if mem v A then 0 else 1)
+                         else (if mem v A then 1 - qpow (1 - clamp01 p) (mcount (contacts g infs) v)
+                               else qpow (1 - clamp01 p) (mcount (contacts g infs) v))) (gnodes g)).
+Proof.
+  intros. split; [reflexivity|]. split; [|reflexivity].
+  destruct fuel; cbn [sis_chain_prob]; destruct (nonempty infs && xlt t tmax); reflexivity.
+Qed.
+Print Assumptions C12_sis_chain_prob_unfold.
+
+(* the instrumented programs are the extracted ones with a ghost (any return mode) *)
+Theorem C12_G_is_model : forall g p ord i0 r0o tmin tmax full fuel,
+  seqv (bind (basic_discrete_SIR_G g p ord i0 r0o tmin tmax full fuel) (fun x => Ret (fst x)))
+       (basic_discrete_SIR g p ord (Some i0) r0o None tmin tmax full fuel) /\
+  seqv (bind (basic_discrete_SIS_G g p ord i0 tmin tmax full fuel) (fun x => Ret (fst x)))
+       (basic_discrete_SIS g p ord (Some i0) None tmin tmax full fuel).
+Proof. intros. split; [apply dsir_G_fst|apply dsis_G_fst]. Qed.
+Print Assumptions C12_G_is_model.
+
 (* ---- basic_discrete_SIS: one coin per (step, arc) ----
    In the SIS simulator a contact can be tested again at a later step: the coins are indexed by
    (step k, u, v).  The run of the model makes at most `fuel` steps (beyond, both sides fail with
@@ -399,3 +475,19 @@ Example C12law_ex_full_perc :
   prob (fun o => ev (proj o)) B == 1 # 2 /\ prob (fun o => ev (proj o)) P == 1 # 2.
 Proof. cbv zeta. repeat split; vm_compute; reflexivity. Qed.
 Print Assumptions C12law_ex_full_perc.
+
+(* the chain on the path 0 - 1 - 2, p = 1/2.  SIR from node 0 to extinction: generations {1}, {2}, {}
+   with probability 1/2 * 1/2 * 1 = 1/4 (computed on the law of the program and by the chain formula);
+   with tmax = 2 the run stops after two passes: {1}, {2} has probability 1/4 and {1}, {2}, {} has 0.
+   SIS from node 1, two steps: {0,2} then {1}: 1/4 * 3/4 = 3/16. *)
+Example C12law_ex_chain :
+  let SIRlaw tmax := law (basic_discrete_SIR_G pth (1 # 2) lx_ord [0%N] None 0 tmax false 4) in
+  let SIRch tmax := chain_prob pth (1 # 2) tmax 4 0 (fun v => negb (mem v [0%N]) && negb (mem v [])) (canon pth [0%N]) in
+  prob (fun x => gens_are pth [[1]; [2]; []]%N (snd x)) (SIRlaw None) == 1 # 4 /\ SIRch None [[1]; [2]; []]%N == 1 # 4 /\
+  prob (fun x => gens_are pth [[1]; [2]]%N (snd x)) (SIRlaw (Some 2)) == 1 # 4 /\ SIRch (Some 2) [[1]; [2]]%N == 1 # 4 /\
+  prob (fun x => gens_are pth [[1]; [2]; []]%N (snd x)) (SIRlaw (Some 2)) == 0 /\ SIRch (Some 2) [[1]; [2]; []]%N == 0 /\
+  prob (fun x => gens_are pth [[0; 2]; [1]]%N (snd x))
+       (law (basic_discrete_SIS_G pth (1 # 2) lx_ord [1%N] 0 (Some 2) false 2)) == 3 # 16 /\
+  sis_chain_prob pth (1 # 2) (Some 2) 2 0 (canon pth [1%N]) [[0; 2]; [1]]%N == 3 # 16.
+Proof. cbv zeta. repeat split; vm_compute; reflexivity. Qed.
+Print Assumptions C12law_ex_chain.
